@@ -35,6 +35,7 @@ COMPONENTS = {'real': ['boltons.ioutils.SpooledBytesIO', 'boltons.ioutils.Spoole
               'stub': ['tempfile.TemporaryFile as seen by ioutils (simfs anonymous file with a seeded write-back size)',
                        'os.fstat for simulated descriptors', 'the rollover instant (harness calls rollover()/fileno())']}
 ASSUMPTIONS = ['reference = io.BytesIO() / io.StringIO() (lines end at \\n only)',
+               'relative seeks: bytes variant takes io.BytesIO offsets; SpooledStringIO.seek(k, SEEK_CUR) means k code points forward and seek(k, SEEK_END) k code points back from the end (its own documented semantics; io.StringIO only allows offset 0 there), the reference is moved to the same absolute position',
                'write() return values are compared between replicas only (the spooled classes return None like Python 2 files); every other listed call is compared with the io reference',
                'writes are issued only when the reference position is at the end of the data (appending writes); seeks stay within 0..len',
                'READ_CHUNK_SIZE is a tuning knob and is varied per run (21333, 7, 3)']
@@ -122,8 +123,11 @@ def gen_case(rng, tier):
             ops.append(['next'])
         elif r < 0.71:
             ops.append(['list'])
-        elif r < 0.85:
+        elif r < 0.82:
             ops.append(['seek', rng.random()])          # fraction of the current length
+        elif r < 0.85:
+            # the same positions reached relative to the current position or to the end
+            ops.append(['seekrel', rng.random(), rng.choice([1, 2])])
         elif r < 0.90:
             ops.append(['tell'])
         elif r < 0.95:
@@ -237,6 +241,21 @@ def _do(f, op, text, ref_len):
             return ('ok', list(f))
         if name == 'seek':
             return ('ok', f.seek(int(round(op[1] * ref_len))))
+        if name == 'seekrel':
+            # target position inside the data, expressed relative to the current position (whence 1, forward)
+            # or to the end (whence 2).  io.BytesIO takes signed offsets; SpooledStringIO documents
+            # "relative to current position" (forward) and measures SEEK_END offsets back from the end.
+            is_ref = isinstance(f, (io.BytesIO, io.StringIO))
+            pos = f.tell()
+            if op[2] == 1:
+                target = pos + int(round(op[1] * (ref_len - pos)))
+                if is_ref and text:
+                    return ('ok', f.seek(target))
+                return ('ok', f.seek(target - pos, 1))
+            target = int(round(op[1] * ref_len))
+            if is_ref and text:
+                return ('ok', f.seek(target))
+            return ('ok', f.seek((ref_len - target) if text else (target - ref_len), 2))
         if name == 'tell':
             return ('ok', f.tell())
         if name == 'getvalue':
@@ -279,7 +298,7 @@ def run_case(case):
                 continue                  # only appending writes are in the statement
             if name == 'write' and text and any(ord(ch) > 127 or ch == '\r' for ch in op[1]):
                 special = True
-            if name == 'seek':
+            if name in ('seek', 'seekrel'):
                 seeked = True
             if name in ('read', 'readline', 'readlines', 'next', 'list') and seeked:
                 read_after_seek = True
